@@ -30,6 +30,32 @@ def c07_a(ctx: Ctx):
     R = "C07-a"
     out = []
     ln = ctx.fn(CUR + ".__len__")
+    # an unfiltered cursor lists the workspace directory (len / iteration) but answers `job in cursor` through `job in project`: both must mean
+    # "a directory named <id> exists in the workspace"
+    for q in ("signac.project:Project.__contains__", "signac.project:Project._contains_job_id"):
+        pf = ctx.fn(q)
+        k = q + "|membership-is-directory"
+        rets = [r for r in body_nodes(pf) if isinstance(r, ast.Return) and r.value is not None]
+        deleg = [r for r in rets if isinstance(r.value, ast.Call) and "signac.project:Project._contains_job_id" in common.targets_of(ctx, pf, r.value)]
+        tests = [c for c in body_nodes(pf) if isinstance(c, ast.Call) and common.ext_name(ctx, pf, c) in ("os.path.exists", "os.path.isdir", "os.path.isfile", "os.path.lexists")]
+        if q.endswith("__contains__") and deleg and not tests:
+            out.append(ctx.ok(R, pf, deleg[0], "`job in project` delegates to _contains_job_id(job.id)", construct=k))
+            continue
+        bad = None
+        for c in tests:
+            a = common.inline_at(ctx, pf, c.args[0], c) if c.args else None
+            parts = None
+            if isinstance(a, ast.Call) and (dotted(a.func) or "").endswith("join") and a.args:
+                parts = a.args[0].elts if isinstance(a.args[0], (ast.Tuple, ast.List)) and len(a.args) == 1 else a.args
+            if common.ext_name(ctx, pf, c) == "os.path.isfile" or (parts is not None and len(parts) != 2):
+                bad = bad or c
+        if bad is not None:
+            out.append(ctx.viol(R, pf, bad, f"membership is decided by `{canon(bad)[:70]}`, not by the existence of the job directory: a directory without state point file (interrupted init) is "
+                                "listed, counted and iterated by the cursor but `job in cursor` is False - len / iteration and membership disagree", construct=k))
+        elif tests:
+            out.append(ctx.ok(R, pf, tests[0], "membership = the job directory <workspace>/<id> exists, the same notion the listing uses", construct=k))
+        else:
+            out.append(ctx.inc(R, pf, pf.node, "membership test not recognised", construct=k))
     cn = ctx.fn(CUR + ".__contains__")
     for f, with_f, without in ((ln, "len(self._ids)", "len(self._project)"), (cn, None, None)):
         for r in [n for n in body_nodes(f) if isinstance(n, ast.Return) and n.value is not None]:
@@ -107,7 +133,29 @@ def c07_b(ctx: Ctx):
     ap = ctx.fn("signac.filterparse:_add_prefix")
     tests = _ns_tests(ctx, ap)
     if not tests:
-        out.append(ctx.inc(R, ap, ap.node, "_add_prefix: namespace test not found"))
+        # a regular expression may decide it: fold the pattern and probe it with keys on both sides of the component rule
+        import re as _re
+        rxc = [c for c in body_nodes(ap) if isinstance(c, ast.Call) and isinstance(c.func, ast.Attribute) and c.func.attr in ("match", "fullmatch", "search")]
+        done = False
+        for c in rxc:
+            pat = ctx.fold(c.func.value, ap)
+            if isinstance(pat, tuple) and pat and pat[0] == "re.compile" and isinstance(pat[1], str):
+                try:
+                    cre = _re.compile(pat[1])
+                except _re.error:
+                    continue
+                fn = getattr(cre, c.func.attr)
+                must = ["sp", "doc", "sp.a", "doc.a", "sp.a.b"]
+                mustnot = ["species", "docking", "sp-ratio", "doc-id", "spx.a", "a.sp", "sp_a", "doc id", "sp$x"]
+                wrong = [k for k in must if not fn(k)] + [k for k in mustnot if fn(k)]
+                done = True
+                if wrong:
+                    out.append(ctx.viol(R, ap, c, f"_add_prefix decides the namespace with the pattern {pat[1]!r} ({c.func.attr}); it classifies {wrong} differently from the component rule "
+                                        "(first dotted component is exactly 'sp' or 'doc') that _root_keys and groupby apply: such state point keys lose the default sp. prefix and match nothing"))
+                else:
+                    out.append(ctx.ok(R, ap, c, f"namespace decided by the pattern {pat[1]!r}, which agrees with the component rule on the probe keys"))
+        if not done:
+            out.append(ctx.inc(R, ap, ap.node, "_add_prefix: namespace test not found"))
     for n, kind in tests:
         if kind in ("component", "prefix-with-dot"):
             out.append(ctx.ok(R, ap, n, f"namespace decided by whole first component ({canon(n)[:50]})"))
@@ -296,10 +344,17 @@ def c07_d(ctx: Ctx):
     pfa = ctx.fn("signac.filterparse:parse_filter_arg")
     ps = ctx.fn("signac.filterparse:_parse_single")
     # key-only token => $exists; /regex/ => $regex; JSON-like => parsed JSON; else _cast
-    txt = " ".join(canon(n) for n in body_nodes(ps) if isinstance(n, ast.Return))
+    txt = " ".join(canon(common.inline_at(ctx, ps, n.value, n)) if n.value is not None else "" for n in body_nodes(ps) if isinstance(n, ast.Return))
     need = ["'$exists': True", "'$regex': value[1:-1]", "_parse_json(value)", "_cast(value)"]
     miss = [x for x in need if x not in txt]
-    if not miss:
+    rx = [d for r in body_nodes(ps) if isinstance(r, ast.Return) and r.value is not None for d in ast.walk(r.value) if isinstance(d, ast.Dict)
+          and any(isinstance(k, ast.Constant) and k.value == "$regex" for k in d.keys)]
+    stripped = [v for d in rx for (k, v) in zip(d.keys, d.values) if isinstance(k, ast.Constant) and k.value == "$regex"
+                and isinstance(v, ast.Call) and isinstance(v.func, ast.Attribute) and v.func.attr in ("strip", "lstrip", "rstrip", "replace")]
+    if stripped:
+        out.append(ctx.viol(R, ps, stripped[0], f"the /regex/ token is unwrapped with `{canon(stripped[0])}`, which removes every leading and trailing '/', not just the two delimiters: "
+                            "`signac find path //scratch/` searches for 'scratch' and selects more jobs than {'path': {'$regex': '/scratch'}}", construct=ps.qual + "|regex-delimiters"))
+    elif not miss:
         out.append(ctx.ok(R, ps, ps.node, "token forms: key alone -> $exists, /re/ -> $regex, JSON text -> parsed JSON, anything else -> typed scalar"))
     else:
         out.append(ctx.inc(R, ps, ps.node, f"_parse_single no longer has the forms {miss}"))
